@@ -30,9 +30,24 @@ var propInfo = map[string]propMeta{
 	"C14": {"exploration", "memdb instrumented at statement granularity; one writer and 1..4 readers/iterators as simulated goroutines under the seeded scheduler; sequential runs compared with the ordered-map model incl. Len/Size; concurrent runs: no panic, iterator keys strictly increasing, every pair returned was stored, reads linearize against the writer's order. Slices handed out by Get/Find/iterators are kept by the readers and must stay byte-identical until Reset. Non-trivial: >=2 goroutines overlapped or >=10 ops. Distinct by event-log hash."},
 	"C16": {"exploration", "programs replayed with the bloom filter as a knob (bits 1..64, base 4..14, changed across reopens with/without AltFilters); results are compared with the model and, on mismatch, with a control run without filters so that only filter-caused differences are reported. Non-trivial: a table was written. Distinct by event-log hash."},
 	"C17": {"exploration", "cache (hash map + LRU) instrumented at statement granularity; 2..6 simulated goroutines doing Get/Release/Delete/Evict/EvictNS/EvictAll/SetCapacity/Close over a small key space incl. table growth/shrink; oracles: one live value per key, constructor once per residency, finaliser exactly once and only after all handles released, deletion callbacks exactly once, retained charge <= capacity at quiescence, no hang. A 'fill' operation grows the hash table (520-2200 nodes) right before Close/EvictAll/SetCapacity(0), so that these meet buckets that are still being migrated; after Close with every handle released each value is finalised exactly once. Non-trivial: >=2 goroutines. Distinct by event-log hash."},
-	"C18": {"exploration", "lifecycle programs after arbitrary histories: second Open on an owned storage, read-only open (no mutating storage call at all, yet all data readable), SetReadOnly, every public method after Close (closed error, no storage call), double Close, released snapshots/iterators, calls racing Close. Open guards: read-only / ErrorIfMissing Open of an empty storage fails and creates nothing, ErrorIfExist on an existing DB fails and changes nothing. After SetReadOnly (40% of those cases while a flush is failing and being retried under table-file faults) every write entry point with every Sync/NoWriteMerge combination, OpenTransaction and CompactRange answer ErrReadOnly. Non-trivial: data existed in both journal and tables or a race occurred. Distinct by event-log hash."},
+	"C18": {"exploration", "lifecycle programs after arbitrary histories: second Open on an owned storage, read-only open (no mutating storage call at all, yet all data readable), SetReadOnly, every public method after Close (closed error, no storage call), double Close, released snapshots/iterators, calls racing Close. Open guards: read-only / ErrorIfMissing Open of an empty storage fails and creates nothing, ErrorIfExist on an existing DB fails and changes nothing. After SetReadOnly (40% of those cases while a flush is failing and being retried under table-file faults) every write entry point with every Sync/NoWriteMerge combination, OpenTransaction and CompactRange answer ErrReadOnly. One case in 7 lays the settled image out in a real directory as file storage does, adds crash leftovers (pending CURRENT.<n>, CURRENT.bak, damaged/missing CURRENT, stray files) and requires a read-only OpenFile + Open to serve all data and leave every directory entry byte-identical. Non-trivial: data existed in both journal and tables or a race occurred. Distinct by event-log hash."},
 	"C19": {"exploration", "settled DB images with CURRENT/manifest removed, truncated or garbage and seeded damaged data blocks, then leveldb.Recover under the scheduler; oracle: exact contents without table damage; with damage: newest version in an undamaged block is returned, nothing invented. 40% of the cases use explicit Options.Strict levels (block checksums on, StrictRecovery and StrictReader off). Non-trivial: a table existed. Distinct by event-log hash."},
 	"C20": {"exploration", "programs that scribble over every argument buffer right after each call and over every returned Get value, with iterator Key/Value checked stable, under buffer pool/block cache/compression knobs; mismatches are confirmed against a control run without scribbling. 15% of the cases are concurrent writers with write merging: the leader's batch must be byte-identical after Write. Every value returned by a Get is kept and must not change later. Non-trivial: a table was written. Distinct by event-log hash."},
+}
+
+// componentsFor: which code ran for real and which was a stub, per property.
+func componentsFor(prop string) map[string]interface{} {
+	m := map[string]interface{}{}
+	for k, v := range realStub {
+		m[k] = v
+	}
+	switch prop {
+	case "C18":
+		m["not_simulated"] = []string{"scenario ro-fs (1 case in 7): leveldb/storage file_storage.go runs for real against a scratch directory of the real file system (it has no seam below it); the directory is compared entry by entry before and after a read-only open. Scheduling of the DB's goroutines is still the simulator's."}
+	case "C12", "C13":
+		m["note"] = "component level: journal / table reader and writer run for real over in-memory byte streams; there are no goroutines, so the scheduler takes no decisions and the explored space is inputs x damage positions"
+	}
+	return m
 }
 
 var realStub = map[string]interface{}{
@@ -80,7 +95,7 @@ func writeEvidence(prop, tier string, seed uint64, a *WorkerOut, wall time.Durat
 		"step_limit_inconclusive":     a.StepLimit,
 		"notes_other_oracles":         a.Notes,
 		"determinism_rechecked_seeds": detChecked,
-		"components":                  realStub,
+		"components":                  componentsFor(prop),
 		"exhaustive":                  false,
 	}
 	ev := map[string]interface{}{
